@@ -276,6 +276,11 @@ FNUNITS = [
     ("Vgp", "hdf/src/vgp.c", ["vpackvg"], {"ignore_calls": ["HEclear", "HEPclear", "HEpush"]}),
     # C07 / C02: the vdata header encoder (field table, field names = an array of rows)
     ("Vio", "hdf/src/vio.c", ["vpackvs"], {"ignore_calls": ["HEclear", "HEPclear", "HEpush"]}),
+    # C05: the run-length coder state machines (switch on the coder state, stream I/O through HDgetc/HDputc/Hread/Hwrite modelled as an input
+    # stream with position and an output stream; enum constants are compiled and printed)
+    ("Crle", "hdf/src/crle.c", ["HCIcrle_encode", "HCIcrle_term", "HCIcrle_decode"],
+     {"ignore_calls": ["HEclear", "HEPclear", "HEpush"], "io": {"HDgetc": "getc", "HDputc": "putc", "Hread": "read", "Hwrite": "write"},
+      "abbrev": {"info_cinfo_coder_info_rle_info": "rle"}}),
 ]
 
 
